@@ -69,8 +69,13 @@ def recover_cascade(mod=None):
         if isinstance(stmt, ast.If) and not stmt.orelse:
             test = ast.unparse(stmt.test)
             body_ok = len(stmt.body) == 1 and isinstance(stmt.body[0], ast.Return)
-            if body_ok and (isinstance(stmt.test, ast.Name) or (isinstance(stmt.test, ast.Call) and test.startswith("self.") and not stmt.test.args)):
+            def _is_self_call(e):
+                return isinstance(e, ast.Call) and ast.unparse(e.func).startswith("self.") and not e.args
+
+            if body_ok and (isinstance(stmt.test, ast.Name) or _is_self_call(stmt.test)):
                 continue  # if x: return x   /   if self.is_*(): return self.line
+            if body_ok and isinstance(stmt.test, ast.BoolOp) and isinstance(stmt.test.op, ast.Or) and all(_is_self_call(v) for v in stmt.test.values) and ast.unparse(stmt.body[0].value) == "self.line":
+                continue  # if self.a() or self.b(): return self.line   (each call is a step of the cascade, in this order)
             if test == "'data16' in self.line" and len(stmt.body) == 1 and ast.unparse(stmt.body[0]) == "self.line = self.line.replace('data16 ', '')":
                 continue
         raise Unsupported(f"LineParser.parse contains a statement outside the modelled shapes: {ast.unparse(stmt)[:120]!r}")
